@@ -553,6 +553,10 @@ type c09Case struct {
 	decoy    bool // CFG_CONFIG=<decoy file>, CFG_HELP=true: must be ignored
 	tail     []string
 	cfgSpell int
+	// how the -config path is spelled: 0 absolute; 1..3 "~/cfg.json" with HOME = one of three different directories (each
+	// holding its own cfg.json); 4 "~/cfg.json" with HOME unset, 5 with HOME="" (no home directory: Parse must fail);
+	// 6 relative to the working directory
+	cfgHome int
 }
 
 // c09Session: one struct + FlagSet that receives several Parse calls
@@ -592,9 +596,23 @@ func c09Run(e *hk.Env, g *c09Gen, c *c09Case, dir string, sess *c09Session) (lin
 	for _, h := range c.help {
 		groups = append(groups, grp{[]string{h}, -2})
 	}
-	cfgPath := filepath.Join(dir, "cfg.json")
+	cfgPath := filepath.Join(dir, "cfg.json") // where the file is written
+	cliPath := cfgPath                         // how the command line names it
+	switch {
+	case c.cfgHome >= 1 && c.cfgHome <= 3:
+		cfgPath = filepath.Join(dir, "home"+strconv.Itoa(c.cfgHome), "cfg.json")
+		cliPath = "~/cfg.json"
+	case c.cfgHome == 4 || c.cfgHome == 5:
+		cliPath = "~/cfg.json"
+	case c.cfgHome == 6:
+		if cwd, err := os.Getwd(); err == nil {
+			if rel, err := filepath.Rel(cwd, cfgPath); err == nil {
+				cliPath = rel
+			}
+		}
+	}
 	if c.useFile {
-		sp := [][]string{{"-config=" + cfgPath}, {"--config=" + cfgPath}, {"-config", cfgPath}, {"--config", cfgPath}}[c.cfgSpell%4]
+		sp := [][]string{{"-config=" + cliPath}, {"--config=" + cliPath}, {"-config", cliPath}, {"--config", cliPath}}[c.cfgSpell%4]
 		groups = append(groups, grp{sp, -1})
 	}
 	nGroupsShuffled := len(groups)
@@ -661,11 +679,27 @@ func c09Run(e *hk.Env, g *c09Gen, c *c09Case, dir string, sess *c09Session) (lin
 		}
 		setVars = append(setVars, k)
 	}
+	origHome, hadHome := os.LookupEnv("HOME")
 	defer func() {
 		for _, k := range setVars {
 			os.Unsetenv(k)
 		}
+		if hadHome {
+			os.Setenv("HOME", origHome)
+		} else {
+			os.Unsetenv("HOME")
+		}
 	}()
+	if c.useFile {
+		switch {
+		case c.cfgHome >= 1 && c.cfgHome <= 3:
+			os.Setenv("HOME", filepath.Join(dir, "home"+strconv.Itoa(c.cfgHome)))
+		case c.cfgHome == 4:
+			os.Unsetenv("HOME")
+		case c.cfgHome == 5:
+			os.Setenv("HOME", "")
+		}
+	}
 	for i, f := range c.fields {
 		if c.ch[i].env != nil {
 			setenv(f.env, *c.ch[i].env)
@@ -747,15 +781,15 @@ func c09Run(e *hk.Env, g *c09Gen, c *c09Case, dir string, sess *c09Session) (lin
 	}
 	cf := "~"
 	if c.useFile {
-		cf = hk.Hxs(cfgPath)
+		cf = hk.Hxs(cliPath) // the world maps (HOME, working directory, path as spelled) to the file's content
 	}
 	help := "~"
 	if ok {
 		help = map[bool]string{false: "0", true: "1"}[fs.ShowUsage()]
 	}
 	line = []string{"E", strconv.Itoa(strconv.IntSize), strconv.Itoa(callno), unchanged, joinHex(vec), cf, map[bool]string{false: "0", true: "1"}[c.useB64], map[bool]string{false: "0", true: "1"}[ok], rest, help, strconv.Itoa(len(c.fields))}
-	if c.useFile && c.fileGone {
-		line[5] = hk.Hxs(cfgPath + ".missing") // the model's file oracle knows no such file
+	if c.useFile && (c.fileGone || c.cfgHome == 4 || c.cfgHome == 5) {
+		line[5] = hk.Hxs(cliPath + ".missing") // the model's file oracle knows no such file
 		// (the command line carries cfgPath, which does not exist either)
 	}
 	bounds := c09Bindings(c)
@@ -798,7 +832,7 @@ func c09Run(e *hk.Env, g *c09Gen, c *c09Case, dir string, sess *c09Session) (lin
 			or = strings.Join(pairs, ",")
 		}
 		jf, jb := "~", "~"
-		if c.useFile && !c.fileGone {
+		if c.useFile && !c.fileGone && c.cfgHome != 4 && c.cfgHome != 5 {
 			jf = optHex(c.ch[i].jfile)
 		}
 		if c.useB64 {
@@ -880,6 +914,9 @@ func runC09(e *hk.Env) error {
 		return err
 	}
 	defer os.RemoveAll(dir)
+	for k := 1; k <= 3; k++ {
+		os.MkdirAll(filepath.Join(dir, "home"+strconv.Itoa(k)), 0o755)
+	}
 	g := &c09Gen{r: e.Rng.Fork()}
 	r := g.r
 
@@ -910,6 +947,7 @@ func runC09(e *hk.Env) error {
 	comboHist := map[string]int{}
 	kindCombo := map[string]map[string]int{}
 	carrierHist := map[string]int{}
+	spellHist := map[string]int{}
 	distinct := map[string]struct{}{}
 	prefilled := 0
 	var sess *c09Session
@@ -951,6 +989,9 @@ func runC09(e *hk.Env) error {
 			car += "+decoy"
 		}
 		carrierHist[car]++
+		if c.useFile {
+			spellHist[[]string{"absolute", "~/ HOME=home1", "~/ HOME=home2", "~/ HOME=home3", "~/ HOME unset", "~/ HOME empty", "relative"}[c.cfgHome]]++
+		}
 		for i, f := range c.fields {
 			combo := ""
 			for _, b := range []bool{c.ch[i].cli != nil, c.ch[i].env != nil,
@@ -996,6 +1037,9 @@ func runC09(e *hk.Env) error {
 			c.useFile, c.useB64 = true, true
 		}
 		c.cfgSpell = r.Intn(4)
+		if c.useFile && r.Chance(45) {
+			c.cfgHome = []int{1, 2, 3, 1, 2, 3, 1, 2, 3, 4, 5, 6, 6}[r.Intn(13)]
+		}
 		c.decoy = r.Chance(50)
 		if r.Chance(30) {
 			c.tail = [][]string{{"rest"}, {"--", "-port=1"}, {"-"}, {"--"}}[r.Intn(4)]
@@ -1185,6 +1229,7 @@ func runC09(e *hk.Env) error {
 	e.Stats["field_source_combinations(cli,env,json,default)"] = comboHist
 	e.Stats["per_kind_combinations"] = kindCombo
 	e.Stats["carriers"] = carrierHist
+	e.Stats["config_path_spellings"] = spellHist
 	e.Stats["fields_per_case"] = map[string]int{"typeA": len(c09FieldsA), "typeB": len(c09FieldsB), "typeC": len(c09FieldsC),
 		"typeD1": len(c09FieldsD1), "typeD2": len(c09FieldsD2), "typeD3": len(c09FieldsD3)}
 	e.Stats["prefilled_structs"] = prefilled
